@@ -144,3 +144,24 @@ def interval_provenance(fin, k, val):
         elif t[0] == 'app':
             return False
     return any(t[0] == 'mapget' for t in atoms)
+
+
+def cell_cases(cell, max_conds=6):
+    """a cell whose value / flag are still joined over conditions, split into its concrete cases"""
+    import itertools
+    from .. import domains as D
+    if cell is None or cell[0] != 'Ok':
+        return [cell]
+    conds = D.ite_conds(cell[1])
+    D.ite_conds(cell[2], conds)
+    if not conds:
+        return [cell]
+    if len(conds) > max_conds:
+        return [cell]
+    out = []
+    for bits in itertools.product([True, False], repeat=len(conds)):
+        asm = dict(zip(conds, bits))
+        c = ('Ok', E.specialise(cell[1], asm), E.specialise(cell[2], asm))
+        if c not in out:
+            out.append(c)
+    return out
